@@ -107,6 +107,13 @@ def run(ctx):
             bad = [e for e in sts if e['con'] != 'mine']
             ctx.ob('C36-OWNER.returned-connection-belongs-to-this-process', f, f.node, not bad,
                    '' if not bad else 'connect() can return with pool.con %s (state %s): the child runs its statements on the connection opened by the parent' % (bad[0]['con'], bad[0]))
+        if ex is g.exit:
+            # the owner stamp is set by the process that opened the connection, when it opens it: whoever leaves connect() with a connection of its own has its
+            # own pid recorded.  (Stamped later -- e.g. at release -- a child that merely releases an inherited connection would claim it.)
+            bad = [e for e in sts if e['con'] == 'mine' and e['pid'] != 'mine']
+            ctx.ob('C36-OWNER.connection-is-stamped-with-its-creators-pid', f, f.node, not bad,
+                   '' if not bad else 'connect() can return a connection opened by this process while pool.pid is %r (state %s): the fork test of a later connect() compares against a '
+                   'stamp that does not name the creator' % (bad[0]['pid'], bad[0]))
         # consistency: a later connect() trusts `pool.con is not None and pool.pid == pid`
         bad = [e for e in sts if e['con'] == 'foreign' and e['pid'] == 'mine']
         ctx.ob('C36-OWNER.no-exit-leaves-foreign-connection-marked-as-own@%s' % nm.split()[0], f, f.node, not bad,
@@ -175,6 +182,7 @@ def run(ctx):
 
 
 MUTANTS = [
+    dict(id='C36-stamp', file='pony/orm/dbapiprovider.py', fn='Pool.connect', old="            pool._connect()\n            pool.pid = pid", new="            pool._connect()", expect='C36-OWNER.connection-is-stamped'),
     dict(id='C36-path', file='pony/orm/dbproviders/sqlite.py', fn='SQLiteProvider.get_pool', old="            filename = absolutize_path(filename, frame_depth=cut_traceback_depth+5)", new="            if not os.path.exists(filename): filename = absolutize_path(filename, frame_depth=cut_traceback_depth+5)", expect='C36-PATH'),
     dict(id='C36-m1', file='pony/orm/dbapiprovider.py', fn='Pool.connect',
          old='        if pool.con is not None and pool.pid != pid:\n            pool.forked_connections.append((pool.con, pool.pid))\n            pool.con = pool.pid = None\n', new='', expect='C36-OWNER'),
